@@ -522,7 +522,15 @@ pub async fn run(case: &Case) -> Outcome {
                         if cid_fail && !illegal_set {
                             out.stats.bump("probe.cid_mismatch_refused");
                         }
-                        // the error travels up to Connection::enter_closing, which calls on_conn_error
+                        // Between the failing call and the moment the error has travelled up to the connection (which
+                        // then calls on_conn_error) other tasks run: the parameters must not look usable in that window
+                        // and nobody waiting for them may have been released with success.
+                        if !undecidable {
+                            if let Ok(true) = real.ready() {
+                                out.violate("cid-binding", "ready-after-refusal", format!("{at} refused the input ({kind:?}) and yet is_remote_params_ready() is true before the connection error is recorded: {cid_checks:?}"), step);
+                                break 'ops;
+                            }
+                        }
                         let e = Error::Quic(QuicError::with_default_fty(kind, reason));
                         real.arc.on_conn_error(&e);
                         if model_err.is_none() {
